@@ -242,5 +242,170 @@ theorem equal_states_hll_ball (hs : SqrtPos sqrt) (hrho : 0 < rho) (hp : 0 < p) 
     rw [hd, div_eq_iff (mul_ne_zero hrho' hRS')]; ring
   refine ⟨trivial, ?_, hu⟩
   rw [hu]; field_simp; ring
+
+/-! ## `hllc_ball` -/
+
+theorem reflect_hllc_ball :
+    ReflectSym (hllc_ball (fieldOps sqrt pow)) rhol rhor pl pr ul ur gamma tol niter := by
+  intro r0 r1
+  simp only [hllc_ball, fieldOps_sqrt, Nat.cast_ofNat, Nat.cast_one]
+  generalize sqrt (gamma * pl / rhol) = cl
+  generalize sqrt (gamma * pr / rhor) = cr
+  have e1 : 1 / 2 * (pr + pl - 1 / 2 * (rhor + rhol) * (1 / 2 * (cr + cl)) * (-ul - -ur))
+      = 1 / 2 * (pl + pr - 1 / 2 * (rhol + rhor) * (1 / 2 * (cl + cr)) * (ur - ul)) := by ring
+  rw [e1]
+  generalize 1 / 2 * (pl + pr - 1 / 2 * (rhol + rhor) * (1 / 2 * (cl + cr)) * (ur - ul)) = P
+  generalize (if 1 < P / pl then sqrt (1 + 1 / 2 * (gamma + 1) / gamma * (P / pl - 1)) else 1) = ql
+  generalize (if 1 < P / pr then sqrt (1 + 1 / 2 * (gamma + 1) / gamma * (P / pr - 1)) else 1) = qr
+  refine ⟨trivial, fun _ => ⟨?_, ?_⟩⟩
+  · ring
+  · ring
+
+theorem equal_states_hllc_ball :
+    EqualStates (hllc_ball (fieldOps sqrt pow)) rho p u gamma tol niter := by
+  intro r0 r1
+  simp only [hllc_ball, fieldOps_sqrt, Nat.cast_ofNat, Nat.cast_one]
+  refine ⟨trivial, ?_, ?_⟩
+  · ring
+  · ring
+
+/-! ## the dispatch function calls the documented solver for every method number -/
+
+theorem riemann_solve_dispatch (o : Ops K) (r0 r1 : K) :
+    riemann_solve o 0 rhol rhor pl pr ul ur gamma niter tol r0 r1
+      = non_diffusive o rhol rhor pl pr ul ur gamma niter tol r0 r1 ∧
+    riemann_solve o 1 rhol rhor pl pr ul ur gamma niter tol r0 r1
+      = van_leer o rhol rhor pl pr ul ur gamma niter tol r0 r1 ∧
+    riemann_solve o 2 rhol rhor pl pr ul ur gamma niter tol r0 r1
+      = exact o rhol rhor pl pr ul ur gamma niter tol r0 r1 ∧
+    riemann_solve o 3 rhol rhor pl pr ul ur gamma niter tol r0 r1
+      = hllc o rhol rhor pl pr ul ur gamma niter tol r0 r1 ∧
+    riemann_solve o 4 rhol rhor pl pr ul ur gamma niter tol r0 r1
+      = ducowicz o rhol rhor pl pr ul ur gamma niter tol r0 r1 ∧
+    riemann_solve o 5 rhol rhor pl pr ul ur gamma niter tol r0 r1
+      = hlle o rhol rhor pl pr ul ur gamma niter tol r0 r1 ∧
+    riemann_solve o 6 rhol rhor pl pr ul ur gamma niter tol r0 r1
+      = roe o rhol rhor pl pr ul ur gamma niter tol r0 r1 ∧
+    riemann_solve o 7 rhol rhor pl pr ul ur gamma niter tol r0 r1
+      = llxf o rhol rhor pl pr ul ur gamma niter tol r0 r1 ∧
+    riemann_solve o 8 rhol rhor pl pr ul ur gamma niter tol r0 r1
+      = hllc_ball o rhol rhor pl pr ul ur gamma niter tol r0 r1 ∧
+    riemann_solve o 9 rhol rhor pl pr ul ur gamma niter tol r0 r1
+      = hll_ball o rhol rhor pl pr ul ur gamma niter tol r0 r1 ∧
+    riemann_solve o 10 rhol rhor pl pr ul ur gamma niter tol r0 r1
+      = hllsy o rhol rhor pl pr ul ur gamma niter tol r0 r1 := by
+  refine ⟨?_, ?_, ?_, ?_, ?_, ?_, ?_, ?_, ?_, ?_, ?_⟩ <;> simp [riemann_solve]
+
+/-- any solver reachable through `riemann_solve` inherits reflection symmetry -/
+theorem reflect_riemann_solve (o : Ops K) (m : Int)
+    (h : ∀ f ∈ [non_diffusive o, van_leer o, exact o, hllc o, ducowicz o, hlle o, roe o, llxf o,
+        hllc_ball o, hll_ball o, hllsy o], ReflectSym f rhol rhor pl pr ul ur gamma tol niter)
+    (hm : 0 ≤ m ∧ m ≤ 10) :
+    ReflectSym (riemann_solve o m) rhol rhor pl pr ul ur gamma tol niter := by
+  obtain ⟨h0, h10⟩ := hm
+  have : m = 0 ∨ m = 1 ∨ m = 2 ∨ m = 3 ∨ m = 4 ∨ m = 5 ∨ m = 6 ∨ m = 7 ∨ m = 8 ∨ m = 9 ∨ m = 10 := by
+    omega
+  intro r0 r1
+  rcases this with rfl | rfl | rfl | rfl | rfl | rfl | rfl | rfl | rfl | rfl | rfl <;>
+    simp only [riemann_solve] <;> norm_num <;>
+    first
+      | exact h _ (by simp) r0 r1
+
+/-! ## the iterative contact solvers -/
+
+/-- Galilean invariance of one solver at one state: adding `c` to both
+velocities keeps the return code and, on success, `p*`, and adds `c` to `u*` -/
+def GalileanInv (f : Solver K) (rhol rhor pl pr ul ur gamma tol : K) (niter : Int) (c : K) : Prop :=
+  ∀ r0 r1 : K,
+    (f rhol rhor pl pr (ul + c) (ur + c) gamma niter tol r0 r1).code
+      = (f rhol rhor pl pr ul ur gamma niter tol r0 r1).code ∧
+    ((f rhol rhor pl pr ul ur gamma niter tol r0 r1).code = 0 →
+      (f rhol rhor pl pr (ul + c) (ur + c) gamma niter tol r0 r1).r0
+        = (f rhol rhor pl pr ul ur gamma niter tol r0 r1).r0 ∧
+      (f rhol rhor pl pr (ul + c) (ur + c) gamma niter tol r0 r1).r1
+        = (f rhol rhor pl pr ul ur gamma niter tol r0 r1).r1 + c)
+
+theorem reflect_van_leer (hs : SqrtPos sqrt) (hrl : 0 < rhol) (hrr : 0 < rhor) (hpl : 0 < pl)
+    (hpr : 0 < pr) (hg : 0 < gamma) :
+    ReflectSym (van_leer (fieldOps sqrt pow)) rhol rhor pl pr ul ur gamma tol niter := by
+  intro r0 r1
+  have hneg : ¬ (rhol < 0 ∨ rhor < 0 ∨ pl < 0 ∨ pr < 0) := by
+    rintro (h | h | h | h) <;> linarith
+  have hneg' : ¬ (rhor < 0 ∨ rhol < 0 ∨ pr < 0 ∨ pl < 0) := by
+    rintro (h | h | h | h) <;> linarith
+  simp only [van_leer, fieldOps_sqrt, Nat.cast_ofNat, Nat.cast_one, Nat.cast_zero, if_neg hneg,
+    if_neg hneg']
+  have hcl : 0 < sqrt (gamma * pl * rhol) := hs _ (by positivity)
+  have hcr : 0 < sqrt (gamma * pr * rhor) := hs _ (by positivity)
+  generalize sqrt (gamma * pl * rhol) = cl at hcl
+  generalize sqrt (gamma * pr * rhor) = cr at hcr
+  generalize (8711228593176025 / 87112285931760246646623899502532662132736 : K) = sp
+  have hsum : cl + cr ≠ 0 := by positivity
+  have hsum' : cr + cl ≠ 0 := by positivity
+  have h0 : pr + (pl - pr - cl * (-ul - -ur)) * cr / (cr + cl)
+      = pl + (pr - pl - cr * (ur - ul)) * cl / (cl + cr) := by
+    field_simp; ring
+  rw [h0]
+  generalize pymax (pl + (pr - pl - cr * (ur - ul)) * cl / (cl + cr)) sp = P0
+  rw [show (van_leer_loopSt.mk false 0 P0 (0 : K) 0) = vlSwap ⟨false, 0, P0, 0, 0⟩ from rfl,
+    van_leer_loop_mirror]
+  exact vlFinish_mirror ul ur pl pr _
+
+theorem galilean_van_leer (c : K) :
+    GalileanInv (van_leer (fieldOps sqrt pow)) rhol rhor pl pr ul ur gamma tol niter c := by
+  intro r0 r1
+  simp only [van_leer, fieldOps_sqrt, Nat.cast_ofNat, Nat.cast_one, Nat.cast_zero]
+  by_cases hneg : (rhol < 0 ∨ rhor < 0 ∨ pl < 0 ∨ pr < 0)
+  · simp [if_pos hneg]
+  · simp only [if_neg hneg]
+    have h0 : ur + c - (ul + c) = ur - ul := by ring
+    rw [h0, van_leer_loop_shift]
+    exact vlFinish_shift ul ur pl pr c _
+
+/-- `exact` reports failure (code 1, `result` untouched) for vacuum-generating
+data: `2/(gamma-1) (c_l + c_r) <= u_r - u_l`, for every iteration limit and tolerance -/
+theorem vacuum_reported_exact (r0 r1 : K)
+    (hv : 2 * (1 / (gamma - 1)) * (sqrt (gamma * pl / rhol) + sqrt (gamma * pr / rhor)) ≤ ur - ul) :
+    exact (fieldOps sqrt pow) rhol rhor pl pr ul ur gamma niter tol r0 r1 = ⟨1, r0, r1⟩ := by
+  simp only [exact, fieldOps_sqrt, Nat.cast_ofNat, Nat.cast_one, Nat.cast_zero]
+  rw [if_pos hv]
+
+/-! ## stated, not proved here (covered by the oracle on the real code only)
+
+* `ducowicz`: its cases A and B are mirror images of themselves, case C is the
+  mirror image of case D, but D is taken unguarded while C is guarded
+  (DESIGN §7 F9).  Reflection symmetry therefore needs "exactly one of the
+  guards of C and D holds once A and B failed", a fact about the Dukowicz
+  two-shock quadratic that is not proved here; a 120-digit search found no
+  admissible state violating it, in double precision it fails only through
+  rounding at density ratios beyond ~1e12.
+* `hllc`, `exact`: reflection symmetry (for `exact` it needs
+  `pow (1/x) g = 1 / pow x g`), `exact`: Galilean invariance, scaling. -/
+
+/-- full statement for the three solvers without a reflection theorem yet -/
+def ReflectSymRemaining (sqrt : K → K) (pow : K → K → K) : Prop :=
+  ∀ rhol rhor pl pr ul ur gamma tol : K, ∀ niter : Int,
+    0 < rhol → 0 < rhor → 0 < pl → 0 < pr → 1 < gamma →
+    ReflectSym (ducowicz (fieldOps sqrt pow)) rhol rhor pl pr ul ur gamma tol niter ∧
+    ReflectSym (hllc (fieldOps sqrt pow)) rhol rhor pl pr ul ur gamma tol niter ∧
+    ReflectSym (exact (fieldOps sqrt pow)) rhol rhor pl pr ul ur gamma tol niter
 end
+
+/-! ## non-vacuity: the hypotheses are satisfiable, the statements say something -/
+
+example : SqrtPos (fun x : K => x) := fun _ h => h
+
+/-- the Sod tube is admissible for every theorem above (`gamma = 7/5`) -/
+example : (0 : K) < 1 ∧ (0 : K) < 1 / 8 ∧ (0 : K) < 1 / 10 ∧ (0 : K) < 7 / 5 := by
+  refine ⟨?_, ?_, ?_, ?_⟩ <;> positivity
+
+/-- reflection really changes the problem: `non_diffusive` on a moving state
+returns a non-zero `u*`, and the mirrored problem returns its negative -/
+example : (non_diffusive (fieldOps (fun x : K => x) (fun x _ => x)) 1 (1 / 8) 1 (1 / 10) 1 3 (7 / 5) 20
+    (1 / 1000) 0 0).r1 = 2 := by
+  simp only [non_diffusive, Nat.cast_ofNat, Nat.cast_one]; norm_num
+
+/-- a vacuum-generating state exists for `vacuum_reported_exact` (`sqrt := id`) -/
+example : 2 * (1 / ((7 / 5 : K) - 1)) * ((7 / 5 * 1 / 1) + (7 / 5 * 1 / 1)) ≤ 20 - (-20) := by
+  norm_num
 end PysphVerif.C15
